@@ -218,6 +218,15 @@ func stepped(e *emitter, bc *bcase, sim gmars.ReportingSimulator, ws []gmars.War
 			e.rec(dumpCore([]int64{11}, sim)...)
 		}
 	}
+	if finished(sim) {
+		// the battle is over: one more RunCycle must change nothing (a cycle-by-cycle driver that
+		// loops until RunCycle returns 0 makes exactly this call); whatever it does shows in the
+		// final observables below
+		if guard(func() { sim.RunCycle() }) {
+			e.rec(9, 1)
+			return false
+		}
+	}
 	e.rec(observe([]int64{5}, sim, ws, fl&4 != 0)...)
 	if fl&8 != 0 {
 		e.rec(dumpCore([]int64{6}, sim)...)
